@@ -182,6 +182,12 @@ main(int argc, char *argv[])
             put_arr("r", r, n, 0);
             put_arr("q", q, n, 1);
             fprintf(vt_out, "}\n");
+        } else if (!strcmp(cmd, "convzero")) {
+            /* probability 0: its log is log-zero, and going back must not give more than went in */
+            int v = logmath_log(lm, 0.0);
+            double back = logmath_exp(lm, v), backz = logmath_exp(lm, logmath_get_zero(lm));
+            fprintf(vt_out, "{\"e\":\"ZeroConv\",\"v\":%d,\"zero\":%d,\"back_is_zero\":%s,\"expzero_is_zero\":%s}\n", v,
+                    logmath_get_zero(lm), back == 0.0 ? "true" : "false", backz == 0.0 ? "true" : "false");
         } else if (!strcmp(cmd, "conv")) {
             static long v[8192], flo[8192], cei[8192], elo[8192], ehi[8192], cls[8192];
             static char *ps[8192];
